@@ -1,0 +1,114 @@
+//go:build verif
+// +build verif
+
+package skiplist
+
+import (
+	"sync"
+	"sync/atomic"
+	"unsafe"
+)
+
+// Verification hooks (build tag `verif`). Pure additions: yield points that
+// call a harness-installed function, and read-only accessors.
+
+// Yield point identifiers passed to the hook.
+const (
+	VerifPtGetNext = 1 + iota
+	VerifPtDcasNext
+	VerifPtNewLevel
+	VerifPtAcquireLoaded
+	VerifPtAcquireAdded
+	VerifPtReleaseAdded
+	VerifPtReleaseBeforeLatch
+	VerifPtReleaseQueued
+	VerifPtReleaseBeforeTryLock
+	VerifPtReleaseAfterCleanup
+	VerifPtFlushSwapped
+	VerifPtFlushBeforeOffset
+	VerifPtCleanupBeforeCallb
+	VerifPtCleanupAfterCallb
+	VerifPtFlushLockWait
+)
+
+type verifHooks struct {
+	yield    func(point int)
+	lockWait func(m *sync.Mutex)
+}
+
+var verifHookPtr unsafe.Pointer // *verifHooks
+
+// VerifSetHooks installs (or, with nils, removes) the harness callbacks.
+func VerifSetHooks(yield func(point int), lockWait func(m *sync.Mutex)) {
+	if yield == nil && lockWait == nil {
+		atomic.StorePointer(&verifHookPtr, nil)
+		return
+	}
+	atomic.StorePointer(&verifHookPtr, unsafe.Pointer(&verifHooks{yield: yield, lockWait: lockWait}))
+}
+
+func verifYield(point int) {
+	if h := (*verifHooks)(atomic.LoadPointer(&verifHookPtr)); h != nil && h.yield != nil {
+		h.yield(point)
+	}
+}
+
+func verifLockWait(m *sync.Mutex) {
+	if h := (*verifHooks)(atomic.LoadPointer(&verifHookPtr)); h != nil && h.lockWait != nil {
+		h.lockWait(m)
+	}
+}
+
+// VerifNext reads the successor and delete mark of n at a level without
+// passing through a yield point.
+func (n *Node) VerifNext(level int) (*Node, bool) {
+	nodeRefAddr := uintptr(unsafe.Pointer(n)) + nodeHdrSize + nodeRefSize*uintptr(level)
+	wordAddr := (*uint64)(unsafe.Pointer(nodeRefAddr + uintptr(7)))
+	v := atomic.LoadUint64(wordAddr)
+	return (*Node)(unsafe.Pointer(uintptr(v >> 8))), v&deletedFlag == deletedFlag
+}
+
+// VerifLevel returns the current maximum level of the skiplist.
+func (s *Skiplist) VerifLevel() int {
+	return int(atomic.LoadInt32(&s.level))
+}
+
+// VerifRawStats is a copy of the raw counters of a Stats object.
+type VerifRawStats struct {
+	LevelNodesCount       [MaxLevel + 1]int64
+	SoftDeletes           int64
+	NodeAllocs, NodeFrees int64
+	UsedBytes             int64
+}
+
+// VerifRaw returns a copy of the raw counters.
+func (s *Stats) VerifRaw() (r VerifRawStats) {
+	for i := range s.levelNodesCount {
+		r.LevelNodesCount[i] = atomic.LoadInt64(&s.levelNodesCount[i])
+	}
+	r.SoftDeletes = atomic.LoadInt64(&s.softDeletes)
+	r.NodeAllocs = atomic.LoadInt64(&s.nodeAllocs)
+	r.NodeFrees = atomic.LoadInt64(&s.nodeFrees)
+	r.UsedBytes = atomic.LoadInt64(&s.usedBytes)
+	return
+}
+
+// VerifClosed reports whether the session has been latched as terminated.
+func (bs *BarrierSession) VerifClosed() bool {
+	return atomic.LoadInt32(&bs.closed) != 0
+}
+
+// VerifLiveCount returns the raw accessor count of the session.
+func (bs *BarrierSession) VerifLiveCount() int32 {
+	return atomic.LoadInt32(bs.liveCount)
+}
+
+// VerifSeqno returns the close number of the session (0 while active).
+func (bs *BarrierSession) VerifSeqno() uint64 {
+	return bs.seqno
+}
+
+// VerifCurrentSession returns the currently installed session.
+func (ab *AccessBarrier) VerifCurrentSession() *BarrierSession {
+	return (*BarrierSession)(atomic.LoadPointer(&ab.session))
+}
